@@ -1,35 +1,28 @@
 /-
-C13 — kernel-checked witnesses on Model/LexTotal.lean of the places where the scanner leaves its text
-(the outcome `overread`), and of a diagnostic line that is not a line of the file.  Each is reproduced
-on the real binary by checklib/C13.py (signature in brackets).
+C13 — kernel-checked witnesses on Model/LexTotal.lean.
+
+Repaired defects (the model follows /repo; these show the repaired behaviour, the campaign replays the inputs on the
+binary from corpus/C13/regress):
+  * `//` in a buffer without newline (paste of `/` `/`, `-DX=//`): was a heap over-read until SIGSEGV  (fix ee6fc96)
+  * `"\` and `'\` directly before the terminating NUL: stepped over the NUL                             (fix ee6fc96)
+  * bytes `//` NUL newline …: tokens behind the NUL got line 0                                            (fix ee6fc96)
+  * `\u000a` became a line break: a one-line file answered with a diagnostic on line 4                    (fix 5bc1be4)
+Remaining explicit over-read outcome: convert_universal_chars copies the NUL after a backslash (only in files that
+contain a NUL byte; the buffer is longer than the string, so the process is not harmed).
 -/
 import ChibiVerif.Model.LexTotal
 
 namespace ChibiVerif.Findings.C13
 open ChibiVerif.LexTotal
 
-/-- [signal@tokenize / heap-buffer-overflow tokenize.c `while (*p != '\n') p++`]  The buffer `paste` builds for `/ ## /`
-    (and `define_macro` for `-DX=//`) is `//` without a newline: the scanner runs off its end. -/
-theorem C13_finding_line_comment_tmp_buffer : scan [47, 47] = .overread .lineComment := by decide
+theorem C13_fixed_line_comment_tmp_buffer : scan [47, 47] = .ok 0 := by decide
+theorem C13_fixed_string_backslash_tmp_buffer : scan [34, 92] = .diag 1 .unclosedString := by decide
+theorem C13_fixed_char_backslash_tmp_buffer : scan [39, 92] = .diag 1 .unclosedChar := by decide
+theorem C13_fixed_nul_in_comment : lexFile [47, 47, 0, 10, 105, 110, 116, 32, 122, 32, 61, 32, 59, 10] = .ok 0 := by decide
+theorem C13_fixed_ucn_newline :
+    lexFile [92, 117, 48, 48, 48, 97, 92, 117, 48, 48, 48, 97, 39] = .diag 2 .unclosedChar := by decide
 
-/-- the hypothesis of `C13_scan_total` is necessary: the same happens for `"\` and `'\` at the end of a buffer -/
-theorem C13_finding_string_backslash_tmp_buffer : scan [34, 92] = .overread .stringBackslash := by decide
-theorem C13_finding_char_backslash_tmp_buffer : scan [39, 92] = .overread .charBackslash := by decide
-
-/-- [bad-location@line0]  In a FILE the terminating NUL is stepped over only when the file itself contains a NUL byte
-    (`C13_lex_no_overread`): `//` NUL newline … — the scan continues in the stale part of the buffer, and the tokens
-    found there never get a line number (add_line_numbers stops at the NUL): diagnostics say line 0. -/
-theorem C13_finding_nul_in_comment : lexFile [47, 47, 0, 10, 105, 110, 116, 32, 122, 32, 61, 32, 59, 10] = .overread .lineComment := by
-  decide
-
-/-- `"\` NUL and `'\` NUL: convert_universal_chars is the first to copy the NUL as the second half of a pair -/
-theorem C13_finding_nul_after_backslash : lexFile [34, 92, 0, 34, 10] = .overread .universalBackslash := by decide
-
-/-- [bad-location@beyond-eof]  convert_universal_chars turns `\u000a` into a newline: the one-line file `\u000a\u000a'`
-    is answered with "unclosed char literal" on line 4 (and `\u000a#error` becomes a directive).  So the last line of
-    the text is not bounded by the lines of the file: `C13_text_lines` stops before this pass. -/
-theorem C13_finding_ucn_newline :
-    lexFile [92, 117, 48, 48, 48, 97, 92, 117, 48, 48, 48, 97, 39] = .diag 4 .unclosedChar ∧
-    terminators (readFile [92, 117, 48, 48, 48, 97, 92, 117, 48, 48, 48, 97, 39]) = 1 := by decide
+/-- the `\`-NUL pair of convert_universal_chars (`*q++ = *p++; *q++ = *p++;`) -/
+theorem C13_note_nul_after_backslash : lexFile [34, 92, 0, 34, 10] = .overread .universalBackslash := by decide
 
 end ChibiVerif.Findings.C13
